@@ -561,3 +561,19 @@ def _allocated(ex, st, r):
 @SPEC.fn("hash_formats_none")
 def _empty_int_list(ex, st):
     return VList(TInt(), z3.Empty(z3.SeqSort(I)))
+
+
+@SPEC.fn("L_member")
+def _L_member(ex, st, l, x):
+    """theorem of the theory of sequences (z3 does not connect seq.contains with seq.nth on its own):
+    x in l  <=>  exists j. 0 <= j < len(l) and l[j] == x"""
+    xe = flat(coerce(x, l.elem_ty))[0]
+    j = z3.Int(fresh_name("j"))
+    k = z3.Int(fresh_name("k"))
+    c = z3.Contains(l.e, z3.Unit(xe))
+    return VBool(
+        z3.And(
+            z3.Implies(z3.Not(c), z3.ForAll([j], z3.Implies(z3.And(0 <= j, j < z3.Length(l.e)), l.e[j] != xe))),
+            z3.Implies(c, z3.Exists([k], z3.And(0 <= k, k < z3.Length(l.e), l.e[k] == xe))),
+        )
+    )
